@@ -414,6 +414,11 @@ func VerifH_proxy() {
 		hold = false // such a call never ends, directly or proxied
 	}
 	mdv := "v" + strconv.Itoa(vfChoice(2))
+	mdvals := []string{mdv}
+	if vfBool() {
+		mdvals = []string{mdv, "second", "third"} // a metadata key with several values: all of them, in order
+		vfCover("multi-valued-metadata")
+	}
 	// a client that neither sends a message nor ends its stream: the proxy handler is still waiting
 	// for the first message when nothing else can happen; covered by F-D37's description, not explored
 	vfAssume(!(hold && nreq == 0))
@@ -441,7 +446,7 @@ func VerifH_proxy() {
 	}
 	hb := &vfHoldBody{data: body, hold: hold, closed: make(chan struct{})}
 	r := &http.Request{Method: "POST", URL: &url.URL{Path: "/vf.P/" + name},
-		Header: http.Header{"Content-Type": []string{"application/grpc+dual"}, "Te": []string{"trailers"}, "X-Md": []string{mdv}},
+		Header: http.Header{"Content-Type": []string{"application/grpc+dual"}, "Te": []string{"trailers"}, "X-Md": mdvals},
 		Body:   hb, ContentLength: -1, ProtoMajor: 2}
 	w := newFakeRW()
 	vfWatchdog(func() {
@@ -489,7 +494,10 @@ func VerifH_proxy() {
 	}
 	// what the backend received
 	vfCheck(obs.calls == 1, "the backend was not called exactly once")
-	vfCheck(len(obs.md) == 1 && obs.md[0] == mdv, "the backend did not receive the client's request metadata")
+	vfCheck(len(obs.md) == len(mdvals), "the backend did not receive the client's request metadata (all values of the key)")
+	for i := range mdvals {
+		vfCheck(i < len(obs.md) && obs.md[i] == mdvals[i], "the backend did not receive the client's request metadata values in order")
+	}
 	if drained || (!cs && !(fail && sc.failAt == 0)) {
 		// the backend read the whole request stream
 		vfCheck(len(obs.reqs) == len(reqs), "the backend did not receive exactly the client's request messages")
